@@ -49,7 +49,10 @@ Inductive case :=
 (* thorough tier: three real meta services over raft; [s0] the metadata observed on the formed
    cluster, [steps] the acknowledged commands (raft index, term, command), [finals] the
    metadata of every node after quiescence *)
-| CSoak (auto : bool) (s0 : data) (steps : list (N * N * cmd)) (finals : list data).
+| CSoak (auto : bool) (s0 : data) (steps : list (N * N * cmd)) (finals : list data)
+(* both tiers: a membership scenario (join / remove / leave + re-join) on real meta services;
+   [steps] includes the CreateMetaNode / DeleteMetaNode commands proposed by join and remove *)
+| CMember (s0 : data) (steps : list (N * N * cmd)) (acked : list string) (finals : list data).
 
 (* the commands of a schedule, in order *)
 Fixpoint applies (evs : list sev) : list entry :=
@@ -127,6 +130,12 @@ Definition check_case (c : case) : N :=
             | [] => true
             | f0 :: t => forallb (fun f => data_eqb (canon f) (canon f0)) t
             end)
+  | CMember s0 steps acked finals =>
+      let m := fold_left (fun d (s : N * N * cmd) =>
+                            fst (apply true [] d (fst (fst s)) (snd (fst s)) (snd s))) steps s0 in
+      let last := fold_left (fun a (s : N * N * cmd) => N.max a (fst (fst s))) steps 0 in
+      code (forallb (fun f => data_sim (canon f) (canon m)) finals)
+           (member_spec s0 last acked finals)
   end.
 
 (* frequent strings of the harness' name pools (the harness prints z<i>) *)
